@@ -319,6 +319,29 @@ Proof.
     exact (map_eq_pointwise _ _ _ (attr_exhaustive_styled d f g u s) (a, b) (attr_pair_in a b Ha Hb)).
 Qed.
 
+(* the semicolon forms of the legacy quirk: parseSGR and the emulator read them *)
+Record consumer_legacy_ok (run : sgrseq -> pen -> res pen) : Prop := {
+  l_fg_index : forall n p, 0 <= n < 256 -> run [[38]; [5]; [n]] p = Ok (set_fg p (index_color n));
+  l_fg_rgb : forall r g b p, 0 <= r < 256 -> 0 <= g < 256 -> 0 <= b < 256 ->
+             run [[38]; [2]; [r]; [g]; [b]] p = Ok (set_fg p (rgb_color r g b));
+  l_bg_index : forall n p, 0 <= n < 256 -> run [[48]; [5]; [n]] p = Ok (set_bg p (index_color n));
+  l_bg_rgb : forall r g b p, 0 <= r < 256 -> 0 <= g < 256 -> 0 <= b < 256 ->
+             run [[48]; [2]; [r]; [g]; [b]] p = Ok (set_bg p (rgb_color r g b))
+}.
+
+Lemma sgr_run_legacy_ok : consumer_legacy_ok sgr_run.
+Proof.
+  constructor.
+  - intros n p H; rewrite <- (u8_small n H) at 2; reflexivity.
+  - intros r g b p Hr Hg Hb.
+    change (sgr_run [[38]; [2]; [r]; [g]; [b]] p) with (Ok (set_fg p (rgb_color (u8 r) (u8 g) (u8 b)))).
+    now rewrite !u8_small.
+  - intros n p H; rewrite <- (u8_small n H) at 2; reflexivity.
+  - intros r g b p Hr Hg Hb.
+    change (sgr_run [[48]; [2]; [r]; [g]; [b]] p) with (Ok (set_bg p (rgb_color (u8 r) (u8 g) (u8 b)))).
+    now rewrite !u8_small.
+Qed.
+
 (* ------------------------------------------------------------------ *)
 (* delta_correct                                                        *)
 
@@ -336,29 +359,36 @@ Proof. intros H; rewrite run_seqs_app, H; reflexivity. Qed.
 Section Delta.
   Variable run : sgrseq -> pen -> res pen.
   Hypothesis Hok : consumer_ok run.
+  (* the legacy quirk is either off or the consumer reads the semicolon forms *)
+  Variable legacy : bool.
+  Hypothesis Hleg : legacy = true -> consumer_legacy_ok run.
 
   Lemma fg_part c p : colour_shape c ->
-    run_seqs run (fgbg_sgr 30 90 38 39 (color_params c)) p = Ok (set_fg p c).
+    run_seqs run (fgbg_sgr legacy 30 90 38 39 (color_params c)) p = Ok (set_fg p c).
   Proof.
     intros [|n Hn|r g b Hr Hg Hb].
     - rewrite params_default; cbn [fgbg_sgr run_seqs]; now rewrite (c_fg_reset _ Hok).
     - rewrite params_index by assumption; cbn [fgbg_sgr].
       destruct (n <? 8) eqn:E8; [cbn [run_seqs]; now rewrite (c_fg_basic _ Hok) by lia|].
-      destruct (n <? 16) eqn:E16; cbn [run_seqs];
-        [now rewrite (c_fg_bright _ Hok) by lia | now rewrite (c_fg_index _ Hok) by lia].
-    - rewrite params_rgb by assumption; cbn [fgbg_sgr run_seqs]; now rewrite (c_fg_rgb _ Hok).
+      destruct (n <? 16) eqn:E16; [cbn [run_seqs]; now rewrite (c_fg_bright _ Hok) by lia|].
+      destruct legacy; cbn [run_seqs];
+        [now rewrite (l_fg_index _ (Hleg eq_refl)) by lia | now rewrite (c_fg_index _ Hok) by lia].
+    - rewrite params_rgb by assumption; cbn [fgbg_sgr]; destruct legacy; cbn [run_seqs];
+        [now rewrite (l_fg_rgb _ (Hleg eq_refl)) | now rewrite (c_fg_rgb _ Hok)].
   Qed.
 
   Lemma bg_part c p : colour_shape c ->
-    run_seqs run (fgbg_sgr 40 100 48 49 (color_params c)) p = Ok (set_bg p c).
+    run_seqs run (fgbg_sgr legacy 40 100 48 49 (color_params c)) p = Ok (set_bg p c).
   Proof.
     intros [|n Hn|r g b Hr Hg Hb].
     - rewrite params_default; cbn [fgbg_sgr run_seqs]; now rewrite (c_bg_reset _ Hok).
     - rewrite params_index by assumption; cbn [fgbg_sgr].
       destruct (n <? 8) eqn:E8; [cbn [run_seqs]; now rewrite (c_bg_basic _ Hok) by lia|].
-      destruct (n <? 16) eqn:E16; cbn [run_seqs];
-        [now rewrite (c_bg_bright _ Hok) by lia | now rewrite (c_bg_index _ Hok) by lia].
-    - rewrite params_rgb by assumption; cbn [fgbg_sgr run_seqs]; now rewrite (c_bg_rgb _ Hok).
+      destruct (n <? 16) eqn:E16; [cbn [run_seqs]; now rewrite (c_bg_bright _ Hok) by lia|].
+      destruct legacy; cbn [run_seqs];
+        [now rewrite (l_bg_index _ (Hleg eq_refl)) by lia | now rewrite (c_bg_index _ Hok) by lia].
+    - rewrite params_rgb by assumption; cbn [fgbg_sgr]; destruct legacy; cbn [run_seqs];
+        [now rewrite (l_bg_rgb _ (Hleg eq_refl)) | now rewrite (c_bg_rgb _ Hok)].
   Qed.
 
   Lemma ul_part c p : colour_shape c ->
@@ -376,7 +406,7 @@ Section Delta.
      for [next]. *)
   Theorem delta_correct rgb smulx prev next :
     wf_penb prev = true -> wf_penb next = true ->
-    run_seqs run (pen_delta rgb smulx prev next) (eff_pen rgb smulx prev) = Ok (eff_pen rgb smulx next).
+    run_seqs run (pen_delta legacy rgb smulx prev next) (eff_pen rgb smulx prev) = Ok (eff_pen rgb smulx next).
   Proof.
     destruct prev as [fp bp up sp ap], next as [fn bn un sn an].
     unfold wf_penb; cbn [fg bg ul uls attr]; intros Hp Hn.
@@ -387,12 +417,12 @@ Section Delta.
     assert (Han : wf_attrb an = true) by lia.
     unfold pen_delta, eff_pen; cbn [fg bg ul uls attr].
     assert (Sfg : forall b u s a,
-      run_seqs run (if fp =? fn then [] else fgbg_sgr 30 90 38 39 (color_params (eff_colour rgb fn)))
+      run_seqs run (if fp =? fn then [] else fgbg_sgr legacy 30 90 38 39 (color_params (eff_colour rgb fn)))
         (mkPen (eff_colour rgb fp) b u s a) = Ok (mkPen (eff_colour rgb fn) b u s a)).
     { intros; destruct (Z.eqb_spec fp fn) as [->|_]; [reflexivity|].
       rewrite fg_part by apply eff_colour_shape, Hfn; reflexivity. }
     assert (Sbg : forall f u s a,
-      run_seqs run (if bp =? bn then [] else fgbg_sgr 40 100 48 49 (color_params (eff_colour rgb bn)))
+      run_seqs run (if bp =? bn then [] else fgbg_sgr legacy 40 100 48 49 (color_params (eff_colour rgb bn)))
         (mkPen f (eff_colour rgb bp) u s a) = Ok (mkPen f (eff_colour rgb bn) u s a)).
     { intros; destruct (Z.eqb_spec bp bn) as [->|_]; [reflexivity|].
       rewrite bg_part by apply eff_colour_shape, Hbn; reflexivity. }
@@ -478,11 +508,13 @@ Section RoundTrip.
   Variable run : sgrseq -> pen -> res pen.
   Hypothesis Hok : consumer_ok run.
   Hypothesis Hreset : forall p, run [] p = Ok pen0.
+  Variable legacy : bool.
+  Hypothesis Hleg : legacy = true -> consumer_legacy_ok run.
 
   (* the encoder loop from any reachable cursor: every cell comes back with its own pen and
      the string ends with the pen reset *)
   Lemma enc_loop_decode cs : Forall wf_cell cs -> forall cur, wf_penb (spen cur) = true ->
-    decode run (spen cur) (enc_loop cur cs) = Ok (map pcell_of cs, pen0).
+    decode run (spen cur) (enc_loop legacy cur cs) = Ok (map pcell_of cs, pen0).
   Proof.
     induction cs as [|[g st] t IH]; intros Hwf cur Hcur.
     - cbn [enc_loop map]; destruct (style_eqb cur style0) eqn:E.
@@ -490,14 +522,14 @@ Section RoundTrip.
       + cbn [decode]; rewrite Hreset; reflexivity.
     - inversion Hwf as [|? ? Hc Ht]; subst. apply wf_cell_inv in Hc as [Hst Hg].
       cbn [enc_loop]. rewrite decode_sgrs.
-      pose proof (delta_correct run Hok true true (spen cur) (spen st) Hcur Hst) as D.
+      pose proof (delta_correct run Hok legacy Hleg true true (spen cur) (spen st) Hcur Hst) as D.
       rewrite !eff_pen_id in D; rewrite D.
       rewrite decode_link, decode_text by assumption.
       rewrite (IH Ht st Hst); reflexivity.
   Qed.
 
   Lemma render_loop_decode rgb smulx cs : Forall wf_pcell cs -> forall cur, wf_penb cur = true ->
-    decode run (eff_pen rgb smulx cur) (render_loop rgb smulx cur cs)
+    decode run (eff_pen rgb smulx cur) (render_loop legacy rgb smulx cur cs)
     = Ok (map (fun c => (fst c, eff_pen rgb smulx (snd c))) cs, pen0).
   Proof.
     induction cs as [|[g p] t IH]; intros Hwf cur Hcur.
@@ -505,7 +537,7 @@ Section RoundTrip.
     - inversion Hwf as [|? ? Hc Ht]; subst.
       unfold wf_pcell, wf_pcellb in Hc; cbn [fst snd] in Hc; apply andb_prop in Hc as [Hp Hg].
       assert (Hg' : g <> []) by (intros ->; discriminate).
-      cbn [render_loop]. rewrite decode_sgrs, (delta_correct run Hok rgb smulx cur p Hcur Hp).
+      cbn [render_loop]. rewrite decode_sgrs, (delta_correct run Hok legacy Hleg rgb smulx cur p Hcur Hp).
       rewrite decode_text by assumption. rewrite (IH Ht p Hp); reflexivity.
   Qed.
 End RoundTrip.
@@ -521,6 +553,12 @@ Proof. reflexivity. Qed.
 
 Lemma styled_reset p : styled_sgr pen0 [] p = Ok pen0.
 Proof. reflexivity. Qed.
+
+Lemma no_legacy run : false = true -> consumer_legacy_ok run.
+Proof. discriminate. Qed.
+
+Lemma sgr_legacy legacy : legacy = true -> consumer_legacy_ok sgr_run.
+Proof. intros _; exact sgr_run_legacy_ok. Qed.
 
 (* ------------------------------------------------------------------ *)
 (* the producer vocabulary; consumers agree on it                       *)
@@ -549,7 +587,7 @@ Ltac enum_vocab n lo :=
   assert (H : n = lo \/ n = lo + 1 \/ n = lo + 2 \/ n = lo + 3 \/ n = lo + 4 \/ n = lo + 5 \/ n = lo + 6 \/ n = lo + 7) by lia;
   cbn in H; repeat (destruct H as [H|H]; [rewrite H; repeat constructor|]); rewrite H; repeat constructor.
 
-Lemma fg_vocab c : Forall vocab (fgbg_sgr 30 90 38 39 (color_params c)).
+Lemma fg_vocab c : Forall vocab (fgbg_sgr false 30 90 38 39 (color_params c)).
 Proof.
   unfold color_params; destruct (is_indexed c); [|destruct (is_rgb c); repeat constructor].
   pose proof (u8_range c) as R; set (n := u8 c) in *; cbn [fgbg_sgr].
@@ -557,7 +595,7 @@ Proof.
   destruct (n <? 16) eqn:E16; [enum_vocab n 8 | repeat constructor].
 Qed.
 
-Lemma bg_vocab c : Forall vocab (fgbg_sgr 40 100 48 49 (color_params c)).
+Lemma bg_vocab c : Forall vocab (fgbg_sgr false 40 100 48 49 (color_params c)).
 Proof.
   unfold color_params; destruct (is_indexed c); [|destruct (is_rgb c); repeat constructor].
   pose proof (u8_range c) as R; set (n := u8 c) in *; cbn [fgbg_sgr].
@@ -580,7 +618,7 @@ Proof.
 Qed.
 
 (* whatever the pens (named constants or not) and capabilities: only vocabulary is written *)
-Lemma pen_delta_vocab rgb smulx prev next : Forall vocab (pen_delta rgb smulx prev next).
+Lemma pen_delta_vocab rgb smulx prev next : Forall vocab (pen_delta false rgb smulx prev next).
 Proof.
   unfold pen_delta; repeat (apply Forall_app; split).
   - destruct (fg prev =? fg next); [constructor | apply fg_vocab].
@@ -600,7 +638,7 @@ Proof.
   rewrite Forall_forall in Hl; apply Hl, Hs.
 Qed.
 
-Lemma enc_loop_vocab cs : forall cur, Forall tok_vocab (enc_loop cur cs).
+Lemma enc_loop_vocab cs : forall cur, Forall tok_vocab (enc_loop false cur cs).
 Proof.
   induction cs as [|[g st] t IH]; intros cur; cbn [enc_loop].
   - destruct (style_eqb cur style0); repeat constructor.
@@ -609,7 +647,7 @@ Proof.
     unfold link_delta; destruct (zlist_eqb (link cur) (link st)); repeat constructor.
 Qed.
 
-Lemma render_loop_vocab rgb smulx cs : forall cur, Forall tok_vocab (render_loop rgb smulx cur cs).
+Lemma render_loop_vocab rgb smulx cs : forall cur, Forall tok_vocab (render_loop false rgb smulx cur cs).
 Proof.
   induction cs as [|[g p] t IH]; intros cur; cbn [render_loop]; [repeat constructor|].
   apply sgr_toks_vocab; [apply pen_delta_vocab | constructor; [exact I | apply IH]].
@@ -629,6 +667,35 @@ Qed.
 Lemma decode_agree_sgr_styled toks : Forall tok_vocab toks -> forall st,
   decode sgr_run st toks = decode (styled_sgr pen0) st toks.
 Proof. apply decode_agree; intros s p Hs; apply agree_on_vocab; auto. Qed.
+
+(* with the legacy quirk the vocabulary grows by the semicolon forms *)
+Definition vocab_l (s : sgrseq) : Prop := in_vocab_legacy s = true.
+
+Lemma vocab_incl s : vocab s -> vocab_l s.
+Proof. unfold vocab, vocab_l, in_vocab_legacy; intros ->; reflexivity. Qed.
+
+Lemma fgbg_vocab_l legacy b0 br ext rst c :
+  Forall vocab (fgbg_sgr false b0 br ext rst (color_params c)) -> (ext = 38 \/ ext = 48) ->
+  Forall vocab_l (fgbg_sgr legacy b0 br ext rst (color_params c)).
+Proof.
+  intros H Hext; destruct legacy; [|eapply Forall_impl; [apply vocab_incl | exact H]].
+  revert H; unfold color_params; destruct (is_indexed c); [|destruct (is_rgb c)]; cbn [fgbg_sgr].
+  - destruct (u8 c <? 8); [intros H; eapply Forall_impl; [apply vocab_incl | exact H]|].
+    destruct (u8 c <? 16); [intros H; eapply Forall_impl; [apply vocab_incl | exact H]|].
+    intros _; destruct Hext as [-> | ->]; repeat constructor.
+  - intros _; destruct Hext as [-> | ->]; repeat constructor.
+  - intros H; eapply Forall_impl; [apply vocab_incl | exact H].
+Qed.
+
+Lemma pen_delta_vocab_l legacy rgb smulx prev next : Forall vocab_l (pen_delta legacy rgb smulx prev next).
+Proof.
+  pose proof (pen_delta_vocab rgb smulx prev next) as H; unfold pen_delta in *.
+  apply Forall_app in H as [H1 H]; apply Forall_app in H as [H2 H].
+  apply Forall_app; split; [|apply Forall_app; split].
+  - destruct (fg prev =? fg next); [constructor|]. apply fgbg_vocab_l; [apply fg_vocab | auto].
+  - destruct (bg prev =? bg next); [constructor|]. apply fgbg_vocab_l; [apply bg_vocab | auto].
+  - eapply Forall_impl; [apply vocab_incl | exact H].
+Qed.
 
 (* vocabulary sequences have no empty sub-list *)
 Lemma vocab_nonempty s : vocab s -> Forall nonempty s.
@@ -668,49 +735,55 @@ Proof.
   apply pcells_eqb_eq in H1; apply pen_eqb_eq in H2; auto.
 Qed.
 
-Theorem codec_model_holds c : codec_model_ok c = true -> codec_holds c = true.
+Lemma res_only_cells_eqb_ok want fin cs :
+  res_only_cells_eqb (Ok (want, fin)) cs = true -> cs = want.
+Proof. unfold res_only_cells_eqb; intros H; apply pcells_eqb_eq in H; auto. Qed.
+
+Ltac use_eqs :=
+  repeat match goal with
+         | X : res_cells_eqb (Ok _) _ _ = true |- _ => apply res_cells_eqb_ok in X as [? ?]
+         | X : res_only_cells_eqb (Ok _) _ = true |- _ => apply res_only_cells_eqb_ok in X
+         end;
+  repeat match goal with
+         | X : _ = map _ _ |- _ => rewrite X
+         | X : _ = pen0 |- _ => rewrite X
+         end; rewrite ?pcells_eqb_refl; try reflexivity.
+
+(* An observation that equals the model's prediction satisfies the property predicate:
+   completely when the legacy quirk is off, and up to NewStyledString-on-EncodeCells when on. *)
+Theorem codec_model_holds c : codec_model_ok c = true ->
+  codec_holds_gen false c = true /\ (fst (fst c) = false -> codec_holds c = true).
 Proof.
-  destruct c as [cells o]; unfold codec_model_ok, codec_holds.
-  destruct (forallb wf_cellb cells) eqn:W; [|reflexivity].
+  destruct c as [[legacy cells] o]; unfold codec_holds, codec_model_ok, codec_holds_gen; cbn [fst].
+  destruct (forallb wf_cellb cells) eqn:W; [|split; reflexivity].
   apply forallb_Forall in W. intros H.
   unfold parse_styled_string, term_feed, new_styled_string, encode_cells, ss_encode in H.
   change (decode parse_sgr) with (decode sgr_run) in H; change (decode term_sgr) with (decode sgr_run) in H.
-  pose proof (enc_loop_decode sgr_run sgr_run_ok sgr_run_reset cells W style0 wf_pen0) as R1.
-  pose proof (enc_loop_decode (styled_sgr pen0) (styled_sgr_ok pen0) styled_reset cells W style0 wf_pen0) as R2.
+  pose proof (enc_loop_decode sgr_run sgr_run_ok sgr_run_reset legacy (sgr_legacy legacy) cells W style0 wf_pen0) as R1.
+  pose proof (enc_loop_decode (styled_sgr pen0) (styled_sgr_ok pen0) styled_reset false (no_legacy _) cells W style0 wf_pen0) as R2.
   change (spen style0) with pen0 in R1, R2. rewrite R1, R2 in H.
   repeat (apply andb_prop in H as [H ?]).
-  repeat match goal with
-         | X : res_cells_eqb (Ok _) _ _ = true |- _ => apply res_cells_eqb_ok in X as [? ?]
-         end.
-  destruct (forallb no_link cells);
-    repeat match goal with
-           | X : pcells_eqb _ _ = true |- _ => apply pcells_eqb_eq in X
-           | X : _ = map pcell_of cells |- _ => rewrite X
-           | X : map pcell_of cells = _ |- _ => rewrite <- X
-           | X : _ = pen0 |- _ => rewrite X
-           end; rewrite ?pcells_eqb_refl; reflexivity.
+  split; [|intros ->; rewrite R2 in *];
+    (destruct (forallb no_link cells);
+     [ match goal with X : _ && _ = true |- _ => apply andb_prop in X as [? ?] end | ]; use_eqs).
 Qed.
 
-Theorem render_model_holds c : render_model_ok c = true -> render_holds c = true.
+Theorem render_model_holds c : render_model_ok c = true ->
+  render_holds_gen false c = true /\ (fst (fst (fst c)) = false -> render_holds c = true).
 Proof.
-  destruct c as [[[rgb smulx] cells] o]; unfold render_model_ok, render_holds.
-  destruct (forallb wf_pcellb cells) eqn:W; [|reflexivity].
+  destruct c as [[[[legacy rgb] smulx] cells] o]; unfold render_holds, render_model_ok, render_holds_gen; cbn [fst].
+  destruct (forallb wf_pcellb cells) eqn:W; [|split; reflexivity].
   apply forallb_Forall in W. intros H.
   unfold parse_styled_string, term_feed, new_styled_string, render_row in H.
   change (decode parse_sgr) with (decode sgr_run) in H; change (decode term_sgr) with (decode sgr_run) in H.
-  pose proof (render_loop_decode sgr_run sgr_run_ok sgr_run_reset rgb smulx cells W pen0 wf_pen0) as R1.
-  pose proof (render_loop_decode (styled_sgr pen0) (styled_sgr_ok pen0) styled_reset rgb smulx cells W pen0 wf_pen0) as R2.
-  rewrite eff_pen0 in R1, R2. rewrite R1, R2 in H.
-  repeat (apply andb_prop in H as [H ?]).
-  repeat match goal with
-         | X : res_cells_eqb (Ok _) _ _ = true |- _ => apply res_cells_eqb_ok in X as [? ?]
-         | X : pcells_eqb _ _ = true |- _ => apply pcells_eqb_eq in X
-         end.
-  repeat match goal with
-         | X : _ = map _ cells |- _ => rewrite X
-         | X : map _ cells = _ |- _ => rewrite <- X
-         | X : _ = pen0 |- _ => rewrite X
-         end; rewrite ?pcells_eqb_refl; reflexivity.
+  pose proof (render_loop_decode sgr_run sgr_run_ok sgr_run_reset legacy (sgr_legacy legacy) rgb smulx cells W pen0 wf_pen0) as R1.
+  rewrite eff_pen0 in R1. rewrite R1 in H.
+  split.
+  - repeat (apply andb_prop in H as [H ?]). use_eqs.
+  - intros ->.
+    pose proof (render_loop_decode (styled_sgr pen0) (styled_sgr_ok pen0) styled_reset false (no_legacy _) rgb smulx cells W pen0 wf_pen0) as R2.
+    rewrite eff_pen0 in R2. rewrite R2 in H.
+    repeat (apply andb_prop in H as [H ?]). use_eqs.
 Qed.
 
 Lemma obs_eqb_ok r o : obs_eqb r o = true -> r <> Panic -> fst o = 0 /\ r = Ok (snd o).
